@@ -1,11 +1,14 @@
 import Orb.Proto
 import Orb.Simplify
 import Orb.SimplifyExt
+import Orb.SimplifyFast
 
 /-! Driver for C12 (simplifiers: Douglas-Peucker, Radial, Visvalingam, helpers.go wrappers).
 
     `line <kind> <t1> <k1> <t2> <k2> <L|R> <n pts> => A | B | C`
-    `long …` same format (32/64/128 vertices): Float twin + structural clauses only
+    `long …` / `deep …` same format (12 … a few thousand vertices): Float twin + structural clauses +
+        the quantitative clause in float64 (the very comparisons the algorithm makes) and, within a work
+        budget, in exact rationals; vertex lists above `bigN` vertices are judged this way under every op
     `seq <kind> <t> <k> <m> (<L|R> <n pts>)*m => r1 | … | rm`   (ONE simplifier value, m calls)
     `geom <kind> <t> <k> <gval> => <Simplify(g)> | <typed method(g) or none> | <Simplify(result) again>`
     `alias …` same format as geom (vertex lists laid out in one backing array; `clobber` = guard written)
@@ -135,6 +138,53 @@ def dpBoundOK (dist : Pt α → Pt α → Pt α → α) (tsq : α) (inB outB : A
         (List.range i').any fun i => reach.getD i false && spanOK i i') reach0
   reach.getD (n - 1) false
 
+/-- vertex lists longer than this are judged with `dpBoundFast` and without running the exact model -/
+def bigN : Nat := 24
+
+/-- The same clause as `dpBoundOK`, evaluated sparsely (only the reachable input indices are kept, an
+    output vertex j can only sit at an input index that leaves room for the m-1-j outputs after it, and
+    the last output vertex must sit at n-1).  `budget` bounds the number of distance evaluations:
+    `none` = budget exceeded (no verdict). -/
+def dpBoundFast (dist : Pt α → Pt α → Pt α → α) (tsq : α) (budget : Nat)
+    (inB outB : Array BPt) (inV : Array (Pt α)) : Option Bool := Id.run do
+  let n := inB.size
+  let m := outB.size
+  if m == 0 then return some (n == 0)
+  if n == 0 then return some false
+  if m > n then return some false
+  let z : BPt := ⟨0, 0⟩
+  let mut work := 0
+  let mut reach : Array Nat := if bEq (inB.getD 0 z) (outB.getD 0 z) then #[0] else #[]
+  for j in [1:m] do
+    if reach.isEmpty then return some false
+    let lo := reach[0]! + 1
+    let hi := n - m + j
+    let lo := if j + 1 == m then max lo (n - 1) else lo
+    let mut next : Array Nat := #[]
+    for i' in [lo:hi + 1] do
+      if bEq (inB.getD i' z) (outB.getD j z) then
+        let mut ok := false
+        for i in reach do
+          if ok || i ≥ i' then break
+          match inV[i]?, inV[i']? with
+          | some a, some b =>
+            let mut good := true
+            for k in [i + 1:i'] do
+              work := work + 1
+              match inV[k]? with
+              | some p => if tsq < dist a b p then
+                            good := false
+                            break
+              | none =>
+                good := false
+                break
+            if good then ok := true
+          | _, _ => pure ()
+          if work > budget then return none
+        if ok then next := next.push i'
+    reach := next
+  return some (reach.contains (n - 1))
+
 /-- Radial spacing: consecutive kept vertices, the last one excepted, are farther apart than the threshold. -/
 def spacingOK (far : Pt α → Pt α → Bool) (out : List (Pt α)) : Bool :=
   let l := out.dropLast
@@ -208,18 +258,23 @@ def structLine (s : Spec) (isRing : Bool) (inp out : List BPt) : Option String :
 def quantF (s : Spec) (inp out : List BPt) : Bool :=
   let t := Float.ofBits s.t
   match s.kind with
-  | "dp" => dpBoundOK distSegSq (t * t) inp.toArray out.toArray (inp.map ptF).toArray
+  | "dp" =>
+    if inp.length ≤ bigN then dpBoundOK distSegSq (t * t) inp.toArray out.toArray (inp.map ptF).toArray
+    else (dpBoundFast distSegSq (t * t) (200000000) inp.toArray out.toArray (inp.map ptF).toArray).getD false
   | "rs" => spacingOK (fun p q => t < distSq p q) (out.map ptF)
   | "rd" => spacingOK (fun p q => t < distF p q) (out.map ptF)
   | _ => true
 
 /-- the quantitative clause of the kind, exactly (every finite float64 is a rational); `none` if some
-    number involved is not finite -/
+    number involved is not finite, or (vertex lists above `bigN` vertices) if the Douglas-Peucker bound
+    needs more than 4n + 2000 exact distance evaluations -/
 def quantQ (s : Spec) (inp out : List BPt) : Option Bool :=
   match ptsQ? inp, ptsQ? out, bitsToRat? s.t with
   | some psQ, some aQ, some t =>
     (match s.kind with
-     | "dp" => some (dpBoundOK distSegSq (t * t) inp.toArray out.toArray psQ.toArray)
+     | "dp" =>
+       if inp.length ≤ bigN then some (dpBoundOK distSegSq (t * t) inp.toArray out.toArray psQ.toArray)
+       else dpBoundFast distSegSq (t * t) (4 * inp.length + 2000) inp.toArray out.toArray psQ.toArray
      | "rs" => some (spacingOK (fun p q => t < distSq p q) aQ)
      | "rd" => some (spacingOK (fun p q => t < 0 || t * t < distSq p q) aQ)
      | _ => some true)
@@ -227,6 +282,7 @@ def quantQ (s : Spec) (inp out : List BPt) : Option Bool :=
 
 /-- does the EXACT model (rationals) return what the implementation returned? -/
 def exactAgrees (s : Spec) (lr : String) (inp out : List BPt) : Bool :=
+  if inp.length > bigN then false else
   match ptsQ? inp, simpQ s, ptsQ? out with
   | some psQ, some sq, some aQ =>
     (match run sq lr psQ with
@@ -243,6 +299,16 @@ inductive JV where
 /-- the quantitative clause for one vertex list: exact, with the float64 evaluation as the rounding witness -/
 def quantLine (s : Spec) (lr : String) (inp out : List BPt) : JV :=
   let clause := match s.kind with | "dp" => "dp-error-bound" | _ => "radial-spacing"
+  if inp.length > bigN then
+    -- long vertex lists: the float64 evaluation repeats the very comparisons the algorithm made (same
+    -- operands, same formula), so it holds for a correct implementation whatever the rounding; the exact
+    -- clause is evaluated on top where it is cheap, the exact MODEL is not run
+    if !(quantF s inp out) then .fail (clause ++ " float") else
+    match quantQ s inp out with
+    | some false => .rounding clause
+    | some true => .ok true
+    | none => .ok false
+  else
   let exact := exactAgrees s lr inp out
   match quantQ s inp out with
   | some true => .ok exact
@@ -265,8 +331,13 @@ def finish (overflow agree : Bool) (model v : String) : String :=
   else if agree then v
   else "diff " ++ model
 
-/-- `line` (full = true) and `long` (full = false: Float twin and structural clauses only) -/
-def handleLine (full : Bool) (inp out : Toks) : String :=
+def sizeTag (n : Nat) : String :=
+  if n < 32 then "n<32" else if n ≤ 128 then "n<=128" else if n ≤ 256 then "n<=256" else if n ≤ 512 then "n<=512"
+  else if n ≤ 1024 then "n<=1024" else if n ≤ 2048 then "n<=2048" else "n>2048"
+
+/-- `line` (op = "line"), `long` and `deep` (same runs and clauses; long vertex lists are judged by
+    `quantLine`'s float64 evaluation plus the budgeted exact clause) -/
+def handleLine (op : String) (inp out : Toks) : String :=
   match (do
     let (s1, i) ← specP inp
     let (t2, i) ← bits i
@@ -319,7 +390,7 @@ def handleLine (full : Bool) (inp out : Toks) : String :=
           | some v => v
           | none =>
           let shape := shapeTag n a.length
-          if !full then s!"ok long {shape} {s1.kind} {lr} n{n}" else
+          let shape := if op == "line" then shape else s!"{op} {sizeTag n} {shape}"
           -- (3) quantitative clauses
           match quantLine s1 lr ps a with
           | .fail cl => "propfail " ++ cl
@@ -329,7 +400,9 @@ def handleLine (full : Bool) (inp out : Toks) : String :=
             match (if s1.kind == "vs" then JV.ok true else quantLine s2 lr ps c) with
             | .fail cl => "propfail " ++ cl ++ " C"
             | .rounding cl => "skip rounding-sensitive " ++ cl ++ " C"
-            | _ => s!"ok {shape} {s1.kind} {lr} " ++ (if exact then "exact" else "rounded")
+            | _ => s!"ok {shape} {s1.kind} {lr} " ++
+                (if n > bigN then (if exact then "exact-clause" else "float-clause")
+                 else if exact then "exact" else "rounded")
         | _, _, _ => "propfail panic line"
       | _, _, _ => "bad output"
     | _ => "bad output"
@@ -754,8 +827,9 @@ def handle (ts : Toks) : String :=
   | op :: rest =>
     let (inp, out) := splitArrow rest
     match op with
-    | "line" => handleLine true inp out
-    | "long" => handleLine false inp out
+    | "line" => handleLine "line" inp out
+    | "long" => handleLine "long" inp out
+    | "deep" => handleLine "deep" inp out
     | "seq" => handleSeq inp out
     | "geom" => handleGeom inp out
     | "alias" => handleGeom inp out
